@@ -26,7 +26,7 @@ BUILTIN_NAMES = {
     "list", "tuple", "isinstance", "ord", "chr", "divmod", "bool", "any", "all", "sorted", "iter", "next",
     "ceil", "floor", "sqrt", "hash", "getattr", "cast", "dict", "set", "print", "repr", "hasattr", "callable", "super",
 }
-SPEC_BUILTINS = {"old", "acq", "line_cells", "implies", "cells", "width_of", "lsum", "fresh_result", "is_ref", "seq_eq", "iff", "ite", "prefix_pad", "char_at", "count_true"}
+SPEC_BUILTINS = {"old", "acq", "line_cells", "joined", "implies", "cells", "width_of", "lsum", "fresh_result", "is_ref", "seq_eq", "iff", "ite", "prefix_pad", "char_at", "count_true"}
 
 
 class CallMixin:
@@ -806,8 +806,11 @@ class CallMixin:
 
     def ev_ListComp(self, node, st):
         k, n, vals, conds, sub, s = self._comp_body(node, [node.elt], st)
-        if conds or n is None:
-            raise Unsupported("filtered list comprehension / comprehension over a dict")
+        if n is None:
+            raise Unsupported("comprehension over a dict")
+        if conds:
+            yield from self.filtered_comp(k, n, vals[0], conds, sub, s)
+            return
         val = vals[0]
         elem_sort = self.sort_of(val, sub)
         ez = self.U.z3sort(elem_sort)
@@ -819,6 +822,36 @@ class CallMixin:
         s.assume(z3.ForAll([k], z3.Implies(z3.And(0 <= k, k < n), z3.And(arr[k] == term, *body_facts)), patterns=[arr[k]]))
         s.heap.update({r: o for r, o in sub.heap.items() if r not in s.heap})
         yield self.box_list(seqs.view(arr, z3.IntVal(0), z3.simplify(n), elem_sort), s), s
+
+    def filtered_comp(self, k, n, val, conds, sub, s):
+        """[f(x) for x in xs if c(x)]: a fresh list characterised exactly as filter-then-map
+        (trusted built-in contract of comprehensions): an order-preserving index map `src` from result
+        positions to source positions whose image is exactly the positions satisfying the filter."""
+        elem_sort = self.sort_of(val, sub)
+        ez = self.U.z3sort(elem_sort)
+        term = self.to_term(val, elem_sort, sub)
+        cond = z3.And(*conds)
+        body_facts = sub.pc[len(s.pc) + 1:]
+        term, cond, *body_facts = skolemize(k, self._comp_start, [term, cond] + list(body_facts))
+        arr = z3.Const(fresh_name("fcomp"), z3.ArraySort(z3.IntSort(), ez))
+        m = z3.Int(fresh_name("fcomp.len"))
+        src = z3.Function(fresh_name("fsrc"), z3.IntSort(), z3.IntSort())
+        dst = z3.Function(fresh_name("fdst"), z3.IntSort(), z3.IntSort())
+        j, j2 = z3.Int(fresh_name("fj")), z3.Int(fresh_name("fj2"))
+        s.assume(z3.And(0 <= m, m <= n))
+        f_at = lambda idx: z3.substitute(term, (k, idx))
+        c_at = lambda idx: z3.substitute(cond, (k, idx))
+        facts_at = lambda idx: [z3.substitute(f, (k, idx)) for f in body_facts]
+        # every result element comes from a source position that passes the filter
+        s.assume(z3.ForAll([j], z3.Implies(z3.And(0 <= j, j < m),
+                                          z3.And(0 <= src(j), src(j) < n, c_at(src(j)), arr[j] == f_at(src(j)), dst(src(j)) == j, *facts_at(src(j)))),
+                           patterns=[arr[j]]))
+        # order is preserved
+        s.assume(z3.ForAll([j, j2], z3.Implies(z3.And(0 <= j, j < j2, j2 < m), src(j) < src(j2)), patterns=[z3.MultiPattern(src(j), src(j2))]))
+        # every source position that passes the filter appears
+        s.assume(z3.ForAll([k], z3.Implies(z3.And(0 <= k, k < n, cond), z3.And(0 <= dst(k), dst(k) < m, src(dst(k)) == k)), patterns=[dst(k)]))
+        s.heap.update({r: o for r, o in sub.heap.items() if r not in s.heap})
+        yield self.box_list(seqs.view(arr, z3.IntVal(0), m, elem_sort), s), s
 
     def ev_GeneratorExp(self, node, st):
         for v, s in self.ev_ListComp(node, st):
